@@ -918,7 +918,12 @@ func runC18(r *Run) {
 				}
 			}
 		}
-		if !orderDependent {
+		// a value is substituted once: rewriting the result of the previous step again lets a value that contains
+		// `:name` of a later parameter be replaced a second time — the parameters are replaced in one simultaneous pass
+		usesReplacer := len(callsMatching(u, true, nameIs("strings.NewReplacer"))) > 0
+		r.check(!orderDependent, "parserRequestURL:simultaneous-substitution", r.fpos(u), "the path parameters are replaced in one pass over the URL (no step rewrites the result of another)",
+			"each path parameter is substituted into the result of the previous substitution: with {name: \":id\", id: \"7\"} the URL /u/:name is sent as /u/7, not /u/:id — a configured value does not arrive as configured")
+		if !orderDependent && !usesReplacer {
 			r.ok("PathParam.VisitAll:ordered", r.fpos(u), "path parameters are not substituted by successive rewriting")
 			return
 		}
@@ -983,7 +988,7 @@ func runC18(r *Run) {
 				continue
 			}
 			for _, a := range c.Common.Args {
-				if mc, ok := a.(*ssa.MakeClosure); ok && len(callsMatching(mc.Fn.(*ssa.Function), false, nameIs("strings.ReplaceAll", "strings.Replace"))) > 0 {
+				if mc, ok := a.(*ssa.MakeClosure); ok && (len(callsMatching(mc.Fn.(*ssa.Function), false, nameIs("strings.ReplaceAll", "strings.Replace"))) > 0 || (usesReplacer && len(callsMatching(mc.Fn.(*ssa.Function), false, nameIs("builtin:append"))) > 0)) {
 					passes++
 				}
 			}
